@@ -242,6 +242,9 @@ def run_driver(bindir, seqs):
 def run_model(ctx, seqs, nshard=16):
     d = os.path.join(VERIF, "coq", "WBT")
     os.makedirs(os.path.join(d, "gen"), exist_ok=True)
+    # bound the work of one coqc run (~40k ops), 16 of them at a time
+    total_ops = sum(len(s) for s in seqs)
+    nshard = max(nshard, (total_ops + 39999) // 40000)
     shards = [list(range(i, len(seqs), nshard)) for i in range(nshard)]
 
     def one(si):
@@ -263,7 +266,7 @@ def run_model(ctx, seqs, nshard=16):
 
     ctx.checker_cmds.append("cd coq/WBT && coqc -noglob -Q . WBT gen/cases_c14_*.v")
     res = [None] * len(seqs)
-    with ThreadPoolExecutor(max_workers=nshard) as ex:
+    with ThreadPoolExecutor(max_workers=16) as ex:
         for lst in ex.map(one, range(nshard)):
             for i, p in lst:
                 res[i] = p
